@@ -63,13 +63,25 @@ impl<'c> Ch<'c> {
     fn probe<W: RtcpPacketWriter>(&mut self, w: &W) {
         if self.next() % 6 == 5 {
             self.probes += 1;
-            let _ = guard(|| w.calculate_size().is_ok());
+            // measured, and (small packets) written once for real and once into a buffer that is too small
+            if let Ok(Ok(n)) = guard(|| w.calculate_size()) {
+                if n <= 1024 {
+                    let mut buf = vec![0xee_u8; n];
+                    let _ = guard(|| w.write_into(&mut buf).is_ok());
+                    let _ = guard(|| w.write_into(&mut buf[..n / 2]).is_ok());
+                }
+            }
         }
     }
     fn probe_fci<'f, F: FciBuilder<'f>>(&mut self, f: &F) {
         if self.next() % 6 == 5 {
             self.probes += 1;
-            let _ = guard(|| f.calculate_size().is_ok());
+            if let Ok(Ok(n)) = guard(|| f.calculate_size()) {
+                if n <= 1024 {
+                    let mut buf = vec![0xee_u8; n];
+                    let _ = guard(|| f.write_into_unchecked(&mut buf));
+                }
+            }
         }
     }
     fn owned(&mut self) -> bool {
